@@ -42,8 +42,15 @@ func vhProgName() string {
 
 func vmE2EParse(i *Interpreter, src, name string, inc bool) (ast.Node, error) { return &ast.File{}, nil }
 
+// vhCurKey names the text being evaluated when it is not the whole program (a chunk).
+var vhCurKey = ""
+
 func vmE2EAst(i *Interpreter, f ast.Node) (string, *node, error) {
-	pkg, root := vhBuildAST(i, vhProgName())
+	key := vhCurKey
+	if key == "" {
+		key = vhProgName()
+	}
+	pkg, root := vhBuildAST(i, key)
 	return pkg, root, nil
 }
 
@@ -223,8 +230,87 @@ func vh_E2E() {
 	vAssert("E2E.same-output-as-compiled", same)
 }
 
-var vhRegistry = map[string]func(){"vh_E2E": vh_E2E}
+// vhScheme selects the way the program is cut into chunks (index in vhChunks[name]).
+var vhScheme = 0
 
-var vhIntVars = map[string]*int{"vhProgIdx": &vhProgIdx, "vhInputBound": &vhInputBound, "vhMaxSteps": &vhMaxSteps}
+// vhEvalHost prepares an interpreter with package host recording into rec.
+func vhEvalHost(buf *bytes.Buffer, rec *[]int, a, b int) *Interpreter {
+	i := vhFullInterp(buf)
+	hostTab := map[string]reflect.Value{}
+	for k, fn := range vhHost(rec, a, b) {
+		hostTab[k] = reflect.ValueOf(fn)
+	}
+	i.binPkg["host"] = hostTab
+	i.pkgNames["host"] = "host"
+	for _, pk := range []string{"fmt", "io", "sort"} {
+		tab := map[string]reflect.Value{}
+		for k, v := range stdlib.Symbols[pk+"/"+pk] {
+			tab[k] = v
+		}
+		i.binPkg[pk] = tab
+		i.pkgNames[pk] = pk
+	}
+	for k, v := range stdlib.MapTypes {
+		i.mapTypes[k] = v
+	}
+	return i
+}
+
+// vh_E2E_chunks: the program evaluated in one piece against the same program fed to another
+// interpreter through a sequence of Eval calls (vhChunks[name][vhScheme]); both by the real
+// pipeline, under the engine on the trees of the real front end for each text.
+func vh_E2E_chunks() {
+	vhResetClock()
+	vhStopAt = -1
+	name := vhProgName()
+	a, b := vNondetInt("a"), vNondetInt("b")
+	vAssume(a > -vhInputBound && a < vhInputBound && b > -vhInputBound && b < vhInputBound)
+	schemes := vhChunks[name]
+	if vhScheme >= len(schemes) || len(schemes[vhScheme]) == 0 {
+		return // no such cut for this program
+	}
+	chunks := schemes[vhScheme]
+	var whole, pieces []int
+	var buf1, buf2 bytes.Buffer
+	i1 := vhEvalHost(&buf1, &whole, a, b)
+	vReach("E2E_chunks")
+	vhCurKey = ""
+	_, err1 := i1.Eval(vhPrograms[name])
+	i2 := vhEvalHost(&buf2, &pieces, a, b)
+	var err2 error
+	for k, c := range chunks {
+		vhCurKey = name + "#" + itoa(vhScheme) + "#" + itoa(k)
+		if _, err2 = i2.Eval(c); err2 != nil {
+			break
+		}
+	}
+	vhCurKey = ""
+	vDebug("whole error", err1)
+	vDebug("pieces error", err2)
+	vAssert("C11.same-termination", (err1 != nil) == (err2 != nil))
+	same := len(whole) == len(pieces)
+	for k := 0; same && k < len(whole); k++ {
+		if whole[k] != pieces[k] {
+			same = false
+		}
+	}
+	vAssert("C11.same-output", same)
+}
+
+func itoa(n int) string {
+	if n == 0 {
+		return "0"
+	}
+	s := ""
+	for n > 0 {
+		s = string(rune('0'+n%10)) + s
+		n /= 10
+	}
+	return s
+}
+
+var vhRegistry = map[string]func(){"vh_E2E": vh_E2E, "vh_E2E_chunks": vh_E2E_chunks}
+
+var vhIntVars = map[string]*int{"vhProgIdx": &vhProgIdx, "vhScheme": &vhScheme, "vhInputBound": &vhInputBound, "vhMaxSteps": &vhMaxSteps}
 
 var vhScenarios = map[string]func(map[string]string) bool{}
